@@ -855,3 +855,72 @@ def serialize(node, depth=0):
         return "%s#doctype %s\n" % (pad, node[1])
     return "%s<%s%s>\n%s" % (pad, node[1], "".join(" %s=%r" % (a, v) for a, v in node[2]),
                              "".join(serialize(n, depth + 1) for n in node[3]))
+
+
+# ----------------------------------------------------------------------------- leptos out-of-order streaming
+def apply_leptos_ooo(nodes):
+    """`nodes`: the parsed children of <body> of an out-of-order stream. Emulates, in document
+    order, the replacement scripts that tachys' OooChunk::push_end_with_nonce emits (their text is
+    matched exactly against gen/htmlparse_stream.py's transcription of the JavaScript): the
+    comments `s-<id>o` / `s-<id>c` delimit a range that is replaced by the content of
+    <template id="<id>f">. Returns (nodes without the delivery templates and scripts, problems)."""
+    from .htmlparse_stream import SCRIPT_RE, REPLACE_TAIL, KEEP_TAIL
+    problems = []
+    root = ("el", "body", [], list(nodes))
+
+    def walk_comments(node, out):
+        for idx, ch in enumerate(node[3]):
+            if ch[0] == "comment":
+                out.append((node, idx, ch))
+            elif ch[0] == "el" and ch[1] != "template":
+                walk_comments(ch, out)
+
+    def find_id(node, want):
+        for ch in node[3]:
+            if ch[0] == "el":
+                if dict(ch[2]).get("id") == want:
+                    return ch
+                r = find_id(ch, want)
+                if r is not None:
+                    return r
+        return None
+
+    def clone(n):
+        if n[0] == "el":
+            return ("el", n[1], list(n[2]), [clone(c) for c in n[3]])
+        return n
+
+    delivery = []
+    for ch in list(root[3]):
+        if not (ch[0] == "el" and ch[1] == "script"):
+            continue
+        src = "".join(t[1] for t in ch[3] if t[0] == "text")
+        m = SCRIPT_RE.match(src)
+        if not m or m.group(2) not in (REPLACE_TAIL, KEEP_TAIL):
+            continue
+        sid, replace = m.group(1), m.group(2) == REPLACE_TAIL
+        delivery.append(ch)
+        comments = []
+        walk_comments(root, comments)
+        opens = [c for c in comments if c[2][1] == "s-%so" % sid]
+        closes = [c for c in comments if c[2][1] == "s-%sc" % sid]
+        if not opens or not closes:
+            problems.append("replacement script %s finds no marker comments" % sid)
+            continue
+        (po, io, _), (pc, ic, _) = opens[-1], closes[-1]
+        if po is not pc or io > ic:
+            problems.append("markers of chunk %s are not siblings in order" % sid)
+            continue
+        if replace:
+            tpl = find_id(root, sid + "f")
+            if tpl is None:
+                problems.append("replacement script %s finds no template" % sid)
+                continue
+            delivery.append(tpl)
+            po[3][io:ic + 1] = [clone(c) for c in tpl[3]]
+        else:
+            del po[3][ic]
+            del po[3][io]
+        # adjacent text nodes that the DOM range operations leave stay separate nodes
+    out = [c for c in root[3] if not any(c is d for d in delivery)]
+    return out, problems
